@@ -209,6 +209,14 @@ def check_graph(case, ctx):
                     reached_directly = any(s is d for s in ev_subjects) or any(s is dd for b, dd in G.derived if b == name for s in ev_subjects)
                     if phase == "cold" and not reached_directly:
                         raise Violation("nested-evaluation-not-observed", f"{where}: dataset {name} is needed but no EvaluateRequest had it as subject")
+                if phase == "cold" and not r.speculated:
+                    # (without absorbed failures everything the reference evaluates is really needed)
+                    seen_classes = {getattr(s, "__vlib_key__", None) for s in ev_subjects}
+                    for key in r.dclass_nodes:
+                        if key not in seen_classes:
+                            raise Violation("nested-evaluation-not-observed", f"{where}: the dataset class {key[:200]} is evaluated (possibly nested in another "
+                                                                              f"dataset class) but no EvaluateRequest had it as subject")
+                        labels.add("dataset-class-observed")
                 exists_ds = collections.Counter(ds_name(q.evaluatable) for q in by[CacheExistsRequest])
                 set_ds = collections.Counter(ds_name(q.evaluatable) for q in by[CacheSetRequest])
                 get_ds = collections.Counter(ds_name(q.evaluatable) for q in by[CacheGetRequest])
